@@ -70,6 +70,9 @@ fn run_script(
     let want_proj = opts.get("proj").and_then(|v| v.as_bool()).unwrap_or(false);
     let cap = opts.get("cap").and_then(|v| v.as_u64()).unwrap_or(60000) as u16;
     let plain = opts.get("mode").and_then(|v| v.as_str()) == Some("plain");
+    // proj_sparse (with proj): silent ticks that leave the projected state unchanged are run-length compressed
+    let sparse = want_proj && opts.get("proj_sparse").and_then(|v| v.as_bool()).unwrap_or(false);
+    let mut last_proj: Option<Value> = None;
     let mut sim = Sim::new(cfg, files)?;
     // pending run of silent ticks
     let mut silent: u64 = 0;
@@ -79,7 +82,7 @@ fn run_script(
             if silent > 0 {
                 let mut line = json!({"e":"t","n":silent,"out":[],"idle":silent_flags.0,"cb":silent_flags.1});
                 if want_proj {
-                    line["proj"] = sim.proj(cap);
+                    line["proj"] = if sparse { last_proj.clone().unwrap_or(Value::Null) } else { sim.proj(cap) };
                 }
                 writeln!(w, "{}", line).map_err(|e| e.to_string())?;
                 silent = 0;
@@ -99,7 +102,18 @@ fn run_script(
                         sim.tick()?
                     };
                     let out = sim.drain(names);
-                    if out.is_empty() && !want_proj {
+                    let mut unchanged = false;
+                    if sparse {
+                        let p = sim.proj(cap);
+                        unchanged = silent > 0 && last_proj.as_ref() == Some(&p);
+                        if out.is_empty() && !unchanged {
+                            // first tick of a possible run: emitted below as a run of length 1 if the next differs
+                            flush!();
+                            unchanged = true;
+                        }
+                        last_proj = Some(p);
+                    }
+                    if out.is_empty() && (!want_proj || unchanged) {
                         if silent > 0 && silent_flags != (idle, cb) {
                             flush!();
                         }
